@@ -101,6 +101,10 @@ func (c *Client) Backoff(err error) <-chan struct{} {
 // Quit is optional, as nil just blocks. Appliance of quit will strictly result
 // in either ErrCanceled or ErrAbandoned.
 func (c *Client) Ping(quit <-chan struct{}) error {
+	if c.ctx.Err() != nil {
+		return fmt.Errorf("%w; PING not send", ErrClosed)
+	}
+
 	// install callback
 	done := make(chan error, 1)
 	select {
